@@ -214,7 +214,24 @@ def run(ctx: Ctx) -> None:
     n = _code_points(ctx, enc_all, dec_all, ev_in, ev_out)
     for c in enc_all:
         ctx.nontrivial.add("enc:" + bytes(c["s"]).hex())
-    ctx.evaluations = n + njson
+    # positive integers in JWKs (RSA members computed by the library from a native key) are minimal: compared with refimpl's
+    # IntToB64 - the TLC-validated encoder - for keys whose CRT members are shorter than their prime, 2047/2050-bit moduli, ...
+    from joserfc.jwk import JWKRegistry
+    from cryptography.hazmat.primitives import serialization as S
+    from . import keys as K, refimpl as R
+    nj = 0
+    for kind in ("RSA1024crt0", "RSA1024", "RSA2047", "RSA2048", "RSA2050", "RSA3072"):
+        jwk = K.get(kind)
+        native = R.jwk_to_native(jwk, True)
+        for enc in (S.Encoding.PEM, S.Encoding.DER):
+            key = JWKRegistry.import_key(native.private_bytes(enc, S.PrivateFormat.PKCS8, S.NoEncryption()), "RSA")
+            for private in (True, False):
+                got = key.as_dict(private=private)
+                for m in ("n", "e") + (("d", "p", "q", "dp", "dq", "qi") if private else ()):
+                    nj += 1
+                    if got.get(m) != jwk[m]:
+                        ctx.violation(f"jwk-int:RSA member {m} is not the minimal big-endian encoding [{kind}]", {"kind": kind, "member": m, "got": str(got.get(m))[:40]})
+    ctx.evaluations = n + njson + nj
     ctx.traces = n
     ctx.exhaustive = True
     ctx.rule = ("every octet string of length<=2 (TLC state space, 65,793 states) and sampled longer ones; every text of "
